@@ -18,7 +18,7 @@ STREAM = "c14"
 RUN_TIMEOUT_S = 300.0
 TIERS = {
     "quick": {"runs": 350, "wall_s": 240, "batch": 350, "det_same": 12, "det_fresh": 2},
-    "thorough": {"runs": 12000, "wall_s": 2400, "batch": 1000, "det_same": 32, "det_fresh": 4},
+    "thorough": {"runs": 6000, "wall_s": 2700, "batch": 1000, "det_same": 32, "det_fresh": 4},
 }
 RULE = ("Each run is one connected netlist (4-9 movable modules: soft, hard with one or several rectangles, plus fixed "
         "modules; nets of arity 2-4 with weights; discs fit in the die; die aspect ratio 0.2-5) placed under "
